@@ -165,6 +165,7 @@ class Executor:
         self.attr_types = self._infer_attr_types()
         self.unresolved: list = []
         self.n_calls = 0
+        self.lambda_defs: dict = {}
 
     # ------------------------------------------------------------------ types
     def _infer_attr_types(self) -> dict:
@@ -255,6 +256,8 @@ class Executor:
                 env[args.vararg.arg] = binding.get(args.vararg.arg, ('p', '*' + args.vararg.arg))
             if args.kwarg:
                 env[args.kwarg.arg] = binding.get(args.kwarg.arg, ('p', '**' + args.kwarg.arg))
+            for nm, val in binding.get('__free__', ()):
+                env.setdefault(nm, val)
             end = run.block(func.node.body, st)
             rets = list(run.returns)
             if end.dead is None:
@@ -408,6 +411,11 @@ class _Run:
                     not any(isinstance(e, ast.Starred) for e in tgt.elts):
                 for e, x in zip(tgt.elts, v[1]):
                     self.assign(e, x, st, s)
+            elif tag(v) == 'phi' and not any(isinstance(e, ast.Starred) for e in tgt.elts) and \
+                    all(tag(x) in ('tuple', 'list') and len(x[1]) == n for _, x in v[1]):
+                # a, b = (x, y) if c else (u, w): each target gets the selection of its component
+                for i, e in enumerate(tgt.elts):
+                    self.assign(e, T.mk_phi([(g, x[1][i]) for g, x in v[1]]), st, s)
             else:
                 for i, e in enumerate(tgt.elts):
                     if isinstance(e, ast.Starred):
@@ -564,7 +572,21 @@ class _Run:
         self.loopstack.append(lid)
         try:
             if kind == 'for':
-                self._bind_loop_target(s.target, it, lid, body_st, s)
+                if tag(it) == 'lc' and it[1] in ('list', 'gen') and len(it[3]) == 1 and tag(it[2]) == 'cv' \
+                        and it[2][2] == '0' and it[3][0][1] and isinstance(s.target, ast.Name):
+                    # for x in [y for y in ys if c(y)]: ...  ==  for x in ys: if c(x): ...
+                    base, conds = it[3][0]
+                    loop.iter = it = base
+                    self._bind_loop_target(s.target, it, lid, body_st, s)
+                    cvar = None
+                    for c in conds:
+                        for x in T.walk(c):
+                            if tag(x) == 'cv' and x[2] == '0':
+                                cvar = x
+                    mapping = {cvar: ('lv', lid, 'elem')} if cvar is not None else {}
+                    body_st.guard = T.mk_and([body_st.guard] + [_truth(T.subst(c, mapping)) for c in conds])
+                else:
+                    self._bind_loop_target(s.target, it, lid, body_st, s)
             else:
                 c = self.ev(s.test, body_st)
                 loop.cond = c
@@ -639,6 +661,7 @@ class _Run:
         return ('lc', 'list', T.subst(elem, mapping), ((it, tuple(T.subst(c, mapping) for c in conds)),))
 
     def _bind_loop_target(self, tgt, it, lid, st, s) -> None:
+        it = _zip_range_as_enumerate(it)
         pit = T.peel(it)
         if tag(it) == 'call' and it[1] == ('g', 'builtins.enumerate') and it[2] and \
                 isinstance(tgt, (ast.Tuple, ast.List)) and len(tgt.elts) == 2:
@@ -728,7 +751,34 @@ class _Run:
     st_AsyncFor = st_For
 
     def st_Match(self, s, st):
-        raise AnalysisError('E2', f'match statement not supported at {self.func.loc(s)}')
+        """match on literal / or-of-literal / wildcard patterns without guards-with-bindings = an if / elif chain."""
+        subj = self.ev(s.subject, st)
+
+        def test_of(pat):
+            if isinstance(pat, ast.MatchValue):
+                return T.mk_cmp('==', subj, self.ev(pat.value, st))
+            if isinstance(pat, ast.MatchSingleton):
+                return T.mk_cmp('is', subj, C(pat.value))
+            if isinstance(pat, ast.MatchOr):
+                return T.mk_or([test_of(x) for x in pat.patterns])
+            if isinstance(pat, ast.MatchAs) and pat.pattern is None and pat.name is None:
+                return TRUE
+            raise AnalysisError('E2', f'match pattern not supported at {self.func.loc(s)}')
+
+        def chain(cases, st):
+            if not cases:
+                return st
+            case = cases[0]
+            c = test_of(case.pattern)
+            if case.guard is not None:
+                c = T.mk_and([c, _truth(self.ev(case.guard, st))])
+            self.emit('cond', s, st, value=c)
+            if c == TRUE:
+                return self.block(case.body, st)
+            a = self.block(case.body, st.fork(c))
+            b = chain(cases[1:], st.fork(T.mk_not(c)))
+            return self.merge(st, c, a, b)
+        return chain(list(s.cases), st)
 
     # ------------------------------------------------------------------ expressions
     def ev_quiet(self, e, st, readthrough=True):
@@ -917,7 +967,14 @@ class _Run:
         names = [a.arg for a in e.args.posonlyargs + e.args.args]
         for i, nm in enumerate(names):
             inner.env[nm] = ('lamv', i)
-        return ('lam', len(names), self.ev(e.body, inner))
+        first = self.ex._seq
+        body = self.ev(e.body, inner)
+        simple = not (e.args.vararg or e.args.kwarg or e.args.kwonlyargs or e.args.defaults)
+        if not simple:
+            return ('lam', len(names), body)
+        t = ('lam', len(names), body)
+        self.ex.lambda_defs[t] = (e, dict(st.env), self, first, self.ex._seq)
+        return t
 
     def _comp(self, e, st, kind, elts):
         inner = st.fork()
@@ -933,9 +990,13 @@ class _Run:
             elt = tuple(self.ev(x, inner) for x in elts)
         finally:
             self.cvdepth -= 1
+        if kind in ('list', 'gen') and len(elt) == 1 and len(gens) == 1 and not gens[0][1] and \
+                elt[0] == ('cv', d, '0') and isinstance(e.generators[0].target, ast.Name):
+            return gens[0][0]           # [x for x in xs] is xs (as a sequence of the same elements)
         return ('lc', kind, elt[0] if len(elt) == 1 else ('tuple', elt), tuple(gens))
 
     def _bind_comp_target(self, tgt, it, d, gi, st):
+        it = _zip_range_as_enumerate(it)
         if tag(it) == 'call' and it[1] == ('g', 'builtins.enumerate') and \
                 isinstance(tgt, (ast.Tuple, ast.List)) and len(tgt.elts) == 2:
             self._bind_simple(tgt.elts[0], ('cv', d, f'{gi}.idx'), st)
@@ -997,6 +1058,37 @@ class _Run:
 
     def call(self, fn, args, kws, node, st):
         tg = tag(fn)
+        # functools.partial(f, *a, **k)(*b, **l) is f(*a, *b, **k, **l)
+        if tg == 'call' and fn[1] == ('g', 'functools.partial') and fn[2]:
+            merged = dict(fn[3])
+            merged.update(dict(kws))
+            return self.call(fn[2][0], tuple(fn[2][1:]) + tuple(args),
+                             tuple(sorted(merged.items(), key=lambda kv: (kv[0] is None, kv[0] or '', T.key(kv[1])))), node, st)
+        # a lambda bound to a local and applied: evaluate its body on the arguments
+        if tg == 'lam' and fn in self.ex.lambda_defs and not kws and len(args) == fn[1] \
+                and not any(tag(a) == 'star' for a in args):
+            lnode, lenv, lrun, first, last = self.ex.lambda_defs[fn]
+            if lrun is self:
+                # the calls evaluated when the lambda was defined (on placeholder arguments) are these very calls
+                self.events = [e for e in self.events if not first < e.seq <= last]
+            inner = st.fork()
+            inner.env.update(lenv)
+            for a, v in zip(lnode.args.posonlyargs + lnode.args.args, args):
+                inner.env[a.arg] = v
+            return self.ev(lnode.body, inner)
+        if tg == 'g' and args and tag(args[0]) == 'lc' and args[0][1] == 'gen':
+            q = fn[1]
+            if q in ('builtins.list', 'builtins.sum', 'numpy.sum', 'builtins.any', 'builtins.all', 'builtins.max',
+                     'builtins.min', 'builtins.sorted', 'builtins.set', 'builtins.frozenset', 'numpy.nansum'):
+                # a generator consumed whole is the list of its elements
+                args = (('lc', 'list') + tuple(args[0][2:]),) + tuple(args[1:])
+        if tg == 'g' and fn[1] in ('builtins.list',) and len(args) == 1 and not kws and tag(args[0]) == 'lc' \
+                and args[0][1] == 'list':
+            return args[0]
+        if tg == 'g' and fn[1] in ('numpy.logical_and', 'numpy.logical_or') and len(args) == 2 and not kws:
+            return T.mk_bin('&' if fn[1].endswith('and') else '|', _truthy_array(args[0]), _truthy_array(args[1]))
+        if tg == 'g' and fn[1] == 'numpy.logical_not' and len(args) == 1 and not kws:
+            return T.mk_un('~', _truthy_array(args[0]))
         # ---- builtins with static meaning
         if tg == 'g':
             q = fn[1]
@@ -1082,14 +1174,25 @@ class _Run:
             full_args, kws = _positional(sig, full_args, kws)
         t = call_t or ('call', ('g', f.qname), full_args, kws)
         is_nested = '<locals>' in f.qname
-        do_inline = (not is_nested) and self.depth < self.ex.max_depth and \
-            self.ex.inline(f.qname, self.depth)
+        # a local function called by the function that defines it is expanded in place, its free variables bound
+        # to the current values of the enclosing locals (unless it rebinds them: nonlocal)
+        closure = is_nested and f.parent is self.func and self.depth < self.ex.max_depth and \
+            not any(isinstance(n, (ast.Nonlocal, ast.Global, ast.Yield, ast.YieldFrom)) for n in ast.walk(f.node))
+        do_inline = closure or ((not is_nested) and self.depth < self.ex.max_depth and
+                                self.ex.inline(f.qname, self.depth))
         self.emit('call', node, st, call=t, inlined=do_inline)
         if not do_inline:
             return t
         binding = self.bind(f, full_args, kws)
         if binding is None:
             return t
+        if closure:
+            own = _bound_names(f.node.body) | {a.arg for a in ast.walk(f.node.args) if isinstance(a, ast.arg)}
+            free = {n.id for n in ast.walk(f.node) if isinstance(n, ast.Name) and isinstance(n.ctx, ast.Load)
+                    and n.id not in own and n.id in st.env}
+            binding = dict(binding)
+            binding['__inlined__'] = True
+            binding['__free__'] = tuple(sorted((nm, st.env[nm]) for nm in free))
         summ = self.ex.run(f, binding, self.depth + 1)
         self.embed(summ, node, st)
         if summ.normal != TRUE:
@@ -1202,6 +1305,20 @@ def _assigned_names(stmts) -> set:
                 if isinstance(b, ast.Name):
                     out.add(b.id)
     return out
+
+
+def _truthy_array(t):
+    return t
+
+
+def _zip_range_as_enumerate(it):
+    """zip(range(len(X)), X) enumerates X."""
+    if tag(it) == 'call' and it[1] == ('g', 'builtins.zip') and len(it[2]) == 2 and not it[3]:
+        r, x = it[2]
+        if tag(r) == 'call' and r[1] == ('g', 'builtins.range') and len(r[2]) == 1 and \
+                r[2][0] == ('call', ('g', 'builtins.len'), (x,), ()):
+            return ('call', ('g', 'builtins.enumerate'), (x,), ())
+    return it
 
 
 def _bound_names(stmts) -> set:
